@@ -66,6 +66,10 @@ def parse_type(s, extra=()):
         return s
     if s.startswith("list "):
         return ("list", parse_type(s[5:], extra))
+    if s.startswith("opt "):                   # a value or None
+        return ("opt", parse_type(s[4:], extra))
+    if s.startswith("dict ") and len(s.split()) >= 3:      # dict K V: an association list in insertion order
+        return ("dict", parse_type(s.split()[1], extra), parse_type(s.split(None, 2)[2], extra))
     raise Unsupported("unknown type %r in the spec" % s)
 
 
@@ -83,6 +87,10 @@ def coq_type(t):
     if isinstance(t, tuple) and t[0] == "list":
         inner = coq_type(t[1])
         return "(list %s)" % inner
+    if isinstance(t, tuple) and t[0] == "opt":
+        return "(option %s)" % coq_type(t[1])
+    if isinstance(t, tuple) and t[0] == "dict":
+        return "(list (%s * %s))" % (coq_type(t[1]), coq_type(t[2]))
     if isinstance(t, tuple) and t[0] == "prod":
         return "(%s * %s)%%type" % (coq_type(t[1]), coq_type(t[2]))
     if isinstance(t, str) and t not in ("obj", "fixed") and re.fullmatch(r"[A-Za-z]\w*", t):
@@ -223,6 +231,8 @@ def assigned_names(stmts):
         elif isinstance(t, (ast.Attribute, ast.Subscript)) and attr_key(t) and "." in attr_key(t):
             if attr_var(attr_key(t)) not in out:
                 out.append(attr_var(attr_key(t)))
+        elif isinstance(t, ast.Subscript) and attr_key(t) is None:
+            tgt(t.value)                       # d[k].append(x): the container d is what changes
 
     class V(ast.NodeVisitor):
         def visit_Expr(self, n):
@@ -404,15 +414,26 @@ class FnTranslator:
                 else:
                     raise Unsupported("oracle flag %r in the spec" % entry[3], node, self.qual)
             kws = [a.split("=")[0].strip() if "=" in a else None for a in args]
-            self.oracles.append((o, [pt(a.split("=")[-1]) for a in args], pt(r)))
+            # an argument of type "any" is not translated: the oracle is not a function of it (it must be a parameter
+            # of which only the truth value is used)
+            self.oracles.append((o, [("any" if a == "any" else pt(a.split("=")[-1])) for a in args], pt(r)))
             self.oracle_kw[o] = kws
         if spec["returns"] == "writes" and not self.writes:
             raise Unsupported("returns = writes, but the spec lists no written attribute", node, self.qual)
         # the result: the returned value, then the final values of the written attributes / in-out parameters
-        ts = ([self.val_type] if self.val_type is not None else []) + [t for _, t in self.writes]
+        ts = ([self.val_type] if self.val_type is not None else []) + [t for _, t in self.writes] \
+            + ([("list", "nat")] if spec.get("events") else [])
         self.ret_type = ts[0]
         for t in ts[1:]:
             self.ret_type = ("prod", self.ret_type, t)
+        # boolean expressions the spec names instead of translating (`'predict' in dir(self.problem)`): a bool parameter
+        self.flags = dict(spec.get("flags", {}))
+        # oracles whose CALLS are observable (they have effects): every call appends its number (position in this
+        # list, from 1) to the event log, the last component of the result
+        self.events = list(spec.get("events", []))
+        for ev in self.events:
+            if ev not in [o for o, _, _ in self.oracles]:
+                raise Unsupported("event %s is not a declared oracle" % ev, node, self.qual)
         self.skip = {}
         for item in spec.get("skip", []):
             txt, cnt = (item, 1) if isinstance(item, str) else (item[0], item[1])
@@ -466,7 +487,7 @@ class FnTranslator:
                 out.append(("eqb_" + nm, "%s -> %s -> bool" % (nm, nm)))
         for o, args, r in self.oracles:
             if o in self.used_oracles:
-                out.append((self.oracle_name(o), " -> ".join([coq_type(a) for a in args] + [coq_type(r)])))
+                out.append((self.oracle_name(o), " -> ".join([coq_type(a) for a in args if a != "any"] + [coq_type(r)])))
         # one index variable per call site of a pick function (random.choice(xs) = xs[pick_k])
         for k in sorted(self.pick_sites):
             out.append(("pick_%d" % k, "nat"))
@@ -546,6 +567,10 @@ class FnTranslator:
         return code, t
 
     def _expr(self, n, env, want):
+        if self.flags and isinstance(n, (ast.Compare, ast.BoolOp, ast.Name, ast.UnaryOp, ast.Call)) \
+                and ast.unparse(n) in self.flags:
+            # a boolean expression the spec names instead of translating: its value is a parameter
+            return mangle(self.flags[ast.unparse(n)]), "bool"
         if isinstance(n, ast.Constant):
             v = n.value
             if isinstance(v, bool):
@@ -622,6 +647,14 @@ class FnTranslator:
             b, tb = self.no_partial(lambda: self.expr(n.orelse, env, want), "a conditional expression", n)
             a, b, t = self.unify(a, ta, b, tb, n)
             return "(if %s then %s else %s)" % (c, a, b), t
+        if isinstance(n, ast.Compare) and len(n.ops) == 1 and isinstance(n.ops[0], (ast.In, ast.NotIn)):
+            d, td = self.expr(n.comparators[0], env)
+            if not (isinstance(td, tuple) and td[0] == "dict"):
+                raise self.err("`in` on a value of type %s (only dictionaries built in the function)" % (td,), n)
+            kc, _ = self.expr(n.left, env, td[1])
+            self.ghelpers.add("py_dict")
+            c = "(py_dict_has %s %s %s)" % (self.eq_fn(td[1], n), kc, d)
+            return (c if isinstance(n.ops[0], ast.In) else "(negb %s)" % c), "bool"
         if isinstance(n, ast.Compare):
             if len(n.ops) != 1:
                 raise self.err("chained comparison", n)
@@ -974,6 +1007,40 @@ class FnTranslator:
         f = dotted(n.func)
         if f is None:
             raise self.err("call of a computed function", n)
+        if f in ("min", "max") and len(n.args) == 1 and len(n.keywords) == 1 and n.keywords[0].arg == "key" \
+                and isinstance(n.keywords[0].value, ast.Lambda) and f not in env:
+            # min(xs, key=lambda x: E) / max(...): the FIRST element with the smallest / largest key; ValueError on an
+            # empty sequence; the key is evaluated on every element (an exception in it is the call's exception)
+            lam = n.keywords[0].value
+            la = lam.args
+            if la.vararg or la.kwarg or la.kwonlyargs or la.defaults or getattr(la, "posonlyargs", []) or len(la.args) != 1:
+                raise self.err("key function of %s() is not a one-argument lambda" % f, lam)
+            xs, t = self.expr(n.args[0], env)
+            if not is_list(t):
+                raise self.err("%s() of a value of type %s" % (f, t), n)
+            v = la.args[0].arg
+            if v in env:
+                raise self.err("lambda variable %r shadows a bound name" % v, lam)
+            saved, saved_partial = self.loop_targets, self.partial
+            self.loop_targets = self.loop_targets | {v}
+            if not self.partial:
+                raise _NeedPartial()
+            try:
+                (kc, _), kpre = self.with_pre(lambda: self.expr(lam.body, dict(env, **{v: t[1]}), "T"))
+            finally:
+                self.loop_targets = saved
+            kcode = "(Some %s)" % kc
+            for item in reversed(kpre):
+                if item[0] == "bind":
+                    kcode = "match %s with Some %s => %s | None => None end" % (item[2], item[1], kcode)
+                elif item[0] == "guard":
+                    kcode = "if %s then None else %s" % (item[1], kcode)
+                else:
+                    raise self.err("an observable call inside a key function", lam)
+            self.use("ltb")
+            self.ghelpers.add("py_extreme_by")
+            better = "(fun py_k py_b => ltb py_k py_b)" if f == "min" else "(fun py_k py_b => ltb py_b py_k)"
+            return self.bind_partial("(py_extreme_by %s (fun %s => %s) %s)" % (better, mangle(v), kcode, xs)), t[1]
         if f == "sorted" and "sorted" not in env and f not in getattr(self, "shadowed_builtins", ()):
             # sorted(xs, key=lambda x: E) with numeric keys: the STABLE sort by `<` on the keys (insertion from the
             # right, as Base/StableSort.v; for keys on which < is not a strict weak order - NaN - Python's result is
@@ -1126,7 +1193,10 @@ class FnTranslator:
             if o == f:
                 if len(args) != len(ats):
                     raise self.err("oracle %s called with %d arguments, declared with %d" % (o, len(args), len(ats)), n)
-                cs = [self.expr(a, env, t)[0] for a, t in zip(args, ats)]
+                for a, t in zip(args, ats):
+                    if t == "any" and not (isinstance(a, ast.Name) and env.get(a.id) == "fixed"):
+                        raise self.err("argument of %s that the spec leaves untranslated is not an opaque parameter" % o, n)
+                cs = [self.expr(a, env, t)[0] for a, t in zip(args, ats) if t != "any"]
                 if o in self.constructors:
                     for a in args:
                         self.check_escape(a, n)
@@ -1137,13 +1207,27 @@ class FnTranslator:
                         raise self.err("the impure oracle %s is called more than once / inside a loop" % o, n)
                 if o not in self.used_oracles:
                     self.used_oracles.append(o)
+                if o in self.events:
+                    if self.loop_targets or self.pre is None:
+                        raise self.err("the observable oracle %s is called inside a loop / lambda" % o, n)
+                    self.pre.append(("event", self.events.index(o) + 1))
                 return ("(%s %s)" % (self.oracle_name(o), " ".join(cs)) if cs else self.oracle_name(o)), rt
         if f in self.calls:
             callee, head = self.callee_head(f, n)
             ptypes = callee.param_list()
-            if len(args) != len([p for p in ptypes if p[2] == "param"]) or any(p[2] != "param" for p in ptypes):
+            if len(args) != len([p for p in ptypes if p[2] == "param"]) or any(p[2] not in ("param", "attr") for p in ptypes):
                 raise self.err("call of %s with an argument list that does not match its parameters" % f, n)
-            cs = [self.expr(a, env, t)[0] for a, (_, t, _) in zip(args, ptypes)]
+            cs = [self.expr(a, env, t)[0] for a, (_, t, _) in zip(args, [p for p in ptypes if p[2] == "param"])]
+            for nm, t, kind in ptypes:
+                if kind == "attr":
+                    # an attribute the callee reads (self.individuals): the same attribute of the same object here,
+                    # declared with the same type and not modified by this function
+                    if not (f.split(".")[0] == self.self_name and callee.self_name is not None) or env.get(nm) != t \
+                            or nm in self.appended or nm in [attr_var(a) for a, _ in self.writes] \
+                            or nm not in [attr_var(a) for a, _ in self.attrs]:
+                        raise self.err("call of %s, which reads the attribute %s: not declared (with the same type, "
+                                       "unmodified) in this function's spec, or not a method of the same object" % (f, nm), n)
+                    cs.append(mangle(nm))
             code = "(%s)" % " ".join([head] + cs)
             if callee.partial:
                 return self.bind_partial(code), callee.ret_type
@@ -1156,6 +1240,8 @@ class FnTranslator:
             if item[0] == "bind":
                 inner = "match %s with\n| Some %s =>\n%s\n| None => %s\nend" % (
                     item[2], item[1], textwrap.indent(inner, "  "), ctx.raise_(env))
+            elif item[0] == "event":
+                inner = "let evlog := (evlog ++ [%d%%nat]) in\n%s" % (item[1], inner)
             else:
                 inner = "if %s then %s else\n%s" % (item[1], ctx.raise_(env), inner)
         return inner
@@ -1261,7 +1347,21 @@ class FnTranslator:
             and not done_appending
         declared = want or dict((attr_var(a), t) for a, t in self.writes).get(name) or self.local_types.get(name)
         try:
-            if isinstance(val, ast.List) and not val.elts:
+            if isinstance(val, ast.Constant) and val.value is None:
+                # None: the local is an optional value; its type comes from local_types or is found by trial
+                if not (isinstance(declared, tuple) and declared[0] == "opt"):
+                    if name not in self.lit_guess:
+                        raise _NeedLitGuess(name, tuple(("opt", c) for c in ("T", "nat", "Z", "bool") + tuple(self.tnames)))
+                    declared = self.lit_guess[name]
+                (c, t), pre = ("(@None %s)" % coq_type(declared[1]), declared), []
+            elif isinstance(val, ast.Dict) and not val.keys:
+                # an empty dictionary: its type is the declared one (local_types, or the declared result type)
+                if not (isinstance(declared, tuple) and declared[0] == "dict"):
+                    declared = self.val_type
+                if not (isinstance(declared, tuple) and declared[0] == "dict"):
+                    raise self.err("empty dictionary assigned to %r, whose type the spec does not declare" % name, s)
+                (c, t), pre = ("[]", declared), []
+            elif isinstance(val, ast.List) and not val.elts:
                 # an empty list literal: its element type comes from the declaration (writes / local_types)
                 # else it is typed by trial, like a bare integer literal: the first element type under which the
                 # whole function is well typed (what is appended to it later decides)
@@ -1276,7 +1376,7 @@ class FnTranslator:
             self.alias_context = False
         if name in self.appended and not self.fresh_list_expr(val):
             raise self.err("%r is modified in place in this function but is bound here to a list that may be shared" % name, s)
-        if name in self.local_types and not is_lit(t) and t != self.local_types[name]:
+        if name in self.local_types and not is_lit(t) and t != self.local_types[name] and ("opt", t) != self.local_types[name]:
             raise self.err("local %r has type %s, the spec declares %s" % (name, t, self.local_types[name]), s)
         if is_lit(t):
             # a bare integer literal: number, integer marker or index?  Python's int is exact in all three,
@@ -1284,7 +1384,8 @@ class FnTranslator:
             if name not in self.lit_guess:
                 raise _NeedLitGuess(name)
             c, t = self.coerce(c, t, self.lit_guess[name], s)
-        if want is not None and want != t:
+        if want is not None and want != t and want != ("opt", t) and t != ("opt", want):
+            # (an optional local may be rebound to a value and back: the joins lift a value to an optional one)
             raise self.err("local %r changes its type from %s to %s" % (name, want, t), s)
         env2 = dict(env)
         env2[name] = t
@@ -1295,7 +1396,7 @@ class FnTranslator:
         """expressions that build a new list object"""
         if isinstance(v, ast.Call) and dotted(v.func) in self.fresh_oracles:
             return True
-        if isinstance(v, (ast.List, ast.ListComp)):
+        if isinstance(v, (ast.List, ast.ListComp)) or (isinstance(v, ast.Dict) and not v.keys):
             return True
         if isinstance(v, ast.Call) and dotted(v.func) in ("list", "sorted") and len(v.args) == 1:
             return True
@@ -1316,9 +1417,14 @@ class FnTranslator:
           xs[i] = e       position i replaced; IndexError out of range       (xs[i] op= e likewise)"""
         kind, tgt, args = mutation_of(s)
         key = attr_key(tgt)
+        if key is None and isinstance(tgt, ast.Subscript) and attr_key(tgt.value) \
+                and isinstance(env.get(attr_var(attr_key(tgt.value))), tuple) and env[attr_var(attr_key(tgt.value))][0] == "dict":
+            return self.dict_entry_mutate(s, kind, tgt, args, rest, env, ctx, k)
         if key is None:
             raise self.err("in-place modification of a computed target", s)
         name = attr_var(key)
+        if isinstance(env.get(name), tuple) and env[name][0] == "dict":
+            return self.dict_mutate(s, kind, name, args, rest, env, ctx, k)
         if name not in env:
             raise self.err("%s of %s, which is not certainly bound here" % (kind, key), s)
         if name not in self.appended:
@@ -1378,6 +1484,52 @@ class FnTranslator:
         inner = "let %s := %s in\n%s" % (me, code, self.block(rest, env2, ctx, k))
         return self.wrap(pre, inner, ctx, env)
 
+    def dict_mutate(self, s, kind, name, args, rest, env, ctx, k):
+        """d[key] = value on a dictionary built in this function: the entry is replaced in place, or added at the end"""
+        t = env[name]
+        if kind != "set" or args[2] is not None:
+            raise self.err("%s on a dictionary" % kind, s)
+        if name in self.loop_targets:
+            raise self.err("in-place modification of the loop variable %r" % name, s)
+
+        def build():
+            kc, _ = self.expr(args[0], env, t[1])
+            if isinstance(args[1], ast.List) and not args[1].elts and is_list(t[2]):
+                vc = "[]"
+            else:
+                if is_list(t[2]) and not self.fresh_list_expr(args[1]):
+                    raise self.err("a list that may be shared is stored in a dictionary", s)
+                vc, vt = self.expr(args[1], env, t[2] if t[2] in SCALARS else None)
+                if vt != t[2]:
+                    raise self.err("value of type %s stored in a dictionary of %s" % (vt, t[2]), s)
+            self.ghelpers.add("py_dict")
+            return "(py_dict_set %s %s %s %s)" % (self.eq_fn(t[1], s), kc, vc, mangle(name))
+        code, pre = self.with_pre(build)
+        inner = "let %s := %s in\n%s" % (mangle(name), code, self.block(rest, dict(env), ctx, k))
+        return self.wrap(pre, inner, ctx, env)
+
+    def dict_entry_mutate(self, s, kind, tgt, args, rest, env, ctx, k):
+        """d[key].append(x) on a dictionary of lists built in this function (KeyError when the key is missing)"""
+        name = attr_var(attr_key(tgt.value))
+        t = env[name]
+        if kind != "append" or not is_list(t[2]):
+            raise self.err("%s on an entry of a dictionary" % kind, s)
+        if name in self.loop_targets:
+            raise self.err("in-place modification of the loop variable %r" % name, s)
+
+        def build():
+            sl = tgt.slice.value if isinstance(tgt.slice, ast.Index) else tgt.slice
+            kc, _ = self.expr(sl, env, t[1])
+            self.check_escape(args[0], s)
+            xc, xt = self.expr(args[0], env, t[2][1] if t[2][1] in SCALARS else None)
+            if xt != t[2][1]:
+                raise self.err("append of a %s to a list of %s" % (xt, t[2][1]), s)
+            self.ghelpers.add("py_dict")
+            return self.bind_partial("(py_dict_upd %s %s (fun py_old => py_old ++ [%s]) %s)" % (self.eq_fn(t[1], s), kc, xc, mangle(name)))
+        code, pre = self.with_pre(build)
+        inner = "let %s := %s in\n%s" % (mangle(name), code, self.block(rest, dict(env), ctx, k))
+        return self.wrap(pre, inner, ctx, env)
+
     def lift(self, rest, env, ctx, k):
         """turn `rest; k` into a separate definition and return a continuation that calls it"""
         if not rest:
@@ -1403,7 +1555,35 @@ class FnTranslator:
     def in_loop_state(loop, v):
         return v == loop.idx or any(v == c for c, _ in loop.carried)
 
+    def none_test(self, test, env):
+        """`x is None` / `x is not None` on a local of an optional type -> (x, True | False), else None"""
+        if isinstance(test, ast.Compare) and len(test.ops) == 1 and isinstance(test.ops[0], (ast.Is, ast.IsNot)) \
+                and isinstance(test.left, ast.Name) and isinstance(test.comparators[0], ast.Constant) \
+                and test.comparators[0].value is None and isinstance(env.get(test.left.id), tuple) \
+                and env[test.left.id][0] == "opt" and test.left.id not in self.fixed:
+            return test.left.id, isinstance(test.ops[0], ast.Is)
+        return None
+
+    @staticmethod
+    def render_if(cond, a, b):
+        if cond[0] == "bool":
+            return "if %s then\n%s\nelse\n%s" % (cond[1], textwrap.indent(a, "  "), textwrap.indent(b, "  "))
+        none_code, some_code = (a, b) if cond[2] else (b, a)
+        return "match %s with\n| None =>\n%s\n| Some %s =>\n%s\nend" % (
+            cond[1], textwrap.indent(none_code, "  "), cond[1], textwrap.indent(some_code, "  "))
+
     def if_(self, s, rest, env, ctx, k):
+        nt = self.none_test(s.test, env)
+        if nt:
+            # `if x is None:` on an optional local: a match; in the other branch x is the value itself
+            if rest and exits(s.body) + exits(s.orelse) == 0:
+                raise self.err("unreachable statement after an if whose branches all return", rest[0])
+            name, is_none = nt
+            env_some = dict(env)
+            env_some[name] = env[name][1]
+            cond = ("none", mangle(name), is_none)
+            env_a, env_b = (env, env_some) if is_none else (env_some, env)
+            return self.if_general(s, cond, [], rest, env, env_a, env_b, ctx, k)
         try:
             (c, _), pre = self.with_pre(lambda: self.expr(s.test, env, "bool"))
         except Unsupported as e:
@@ -1422,50 +1602,68 @@ class FnTranslator:
             return self.block(list(live) + list(rest), env, ctx, k)
         if rest and exits(s.body) + exits(s.orelse) == 0:
             raise self.err("unreachable statement after an if whose branches all return", rest[0])
+        return self.if_general(s, ("bool", c), pre, rest, env, env, env, ctx, k)
+
+    def if_general(self, s, cond, pre, rest, env, env_a, env_b, ctx, k):
         if self.simple(s.body) and self.simple(s.orelse) and rest:
             # join through the tuple of the locals assigned in the branches; a branch with an
             # operation that can raise falls back to the general scheme below
             try:
-                return self.wrap(pre, self.if_join(s, c, rest, env, ctx, k), ctx, env)
+                return self.wrap(pre, self.if_join(s, cond, rest, env, env_a, env_b, ctx, k), ctx, env)
             except _NoJoin:
                 pass
         if exits(s.body) + exits(s.orelse) > 1 and rest:
             # more than one path reaches the rest: the rest becomes a definition of its own; locals
             # bound in only one branch are not certainly bound afterwards
-            # ... unless every path that falls through assigns them: their types are found by a dry run
+            # ... unless every path that falls through assigns them.  A dry run finds the type of every local at the
+            # end of every path that falls through; a local that is a value on some paths and optional on others
+            # is optional afterwards (the value is wrapped in Some where it is passed on)
             env_k = dict(env)
             new = [v for v in assigned_names([s]) if v not in env and self.always_assigns([s], v)]
-            if new:
-                saved = (list(self.defs), self.nloop, self.ncont, self.nfresh)
-                seen = {}
+            cand = [v for v in env if env[v] not in ("obj", "fixed")] + new
+            saved = (list(self.defs), self.nloop, self.ncont, self.nfresh)
+            seen = {}
 
-                def probe(e):
-                    for v in new:
-                        if v in seen and seen[v] != e[v]:
-                            raise self.err("local %r has different types on different paths" % v, s)
-                        seen[v] = e[v]
-                    return "tt"
-                try:
-                    self.with_pre(lambda: (self.block(s.body, env, ctx, probe), self.block(s.orelse, env, ctx, probe)))
-                finally:
-                    self.defs, self.nloop, self.ncont, self.nfresh = saved
-                for v in new:
-                    if v in seen:
-                        env_k[v] = seen[v]
+            def probe(e):
+                for v in cand:
+                    if v in e and e[v] not in seen.setdefault(v, []):
+                        seen[v].append(e[v])
+                return "tt"
+            try:
+                self.with_pre(lambda: (self.block(s.body, env_a, ctx, probe), self.block(s.orelse, env_b, ctx, probe)))
+            finally:
+                self.defs, self.nloop, self.ncont, self.nfresh = saved
+            for v in cand:
+                ts = seen.get(v, [])
+                if len(ts) == 1:
+                    env_k[v] = ts[0]
+                elif len(ts) == 2 and (("opt", ts[0]) == ts[1] or ("opt", ts[1]) == ts[0]):
+                    env_k[v] = ts[0] if ts[0] == ("opt", ts[1]) else ts[1]
+                elif ts:
+                    raise self.err("local %r has different types on different paths: %s" % (v, ts), s)
             both = [v for v in env_k]
             k2 = self.lift(rest, env_k, ctx, k)
-            k3 = lambda e, k2=k2: k2({v: e[v] for v in both})
-            a = self.block(s.body, env, ctx, k3)
-            b = self.block(s.orelse, env, ctx, k3)
+
+            def k3(e, k2=k2):
+                e2 = {}
+                for v in both:
+                    if e[v] != env_k[v]:
+                        e2[v] = ("wrap", v)
+                # the lifted continuation is called with (Some v) for the locals that are optional after the join
+                code = k2({v: e[v] for v in both})
+                for v in e2:
+                    code = re.sub(r"(?<![\w'])%s(?![\w'])" % re.escape(mangle(v)), "(Some %s)" % mangle(v), code)
+                return code
+            a = self.block(s.body, env_a, ctx, k3)
+            b = self.block(s.orelse, env_b, ctx, k3)
         else:
             kk = (lambda e: self.block(rest, {v: e[v] for v in e if v in env or exits(s.body) + exits(s.orelse) == 1},
                                        ctx, k)) if rest else k
-            a = self.block(s.body, env, ctx, kk)
-            b = self.block(s.orelse, env, ctx, kk)
-        return self.wrap(pre, "if %s then\n%s\nelse\n%s" % (c, textwrap.indent(a, "  "), textwrap.indent(b, "  ")),
-                         ctx, env)
+            a = self.block(s.body, env_a, ctx, kk)
+            b = self.block(s.orelse, env_b, ctx, kk)
+        return self.wrap(pre, self.render_if(cond, a, b), ctx, env)
 
-    def if_join(self, s, c, rest, env, ctx, k):
+    def if_join(self, s, cond, rest, env, env_a, env_b, ctx, k):
         names = [v for v in assigned_names([s]) if v in env]
         for v in assigned_names([s]):
             if v not in env:
@@ -1473,26 +1671,52 @@ class FnTranslator:
                 if v in assigned_names(s.body) and v in assigned_names(s.orelse) and self.always_assigns(s.body, v) \
                         and self.always_assigns(s.orelse, v):
                     names.append(v)
-        types = {}
-
-        def branch(stmts):
-            def fin(e):
-                for v in names:
-                    if v in types and types[v] != e[v]:
-                        raise self.err("local %r has different types in the two branches" % v, s)
-                    types[v] = e[v]
-                return "(%s)" % ", ".join(mangle(v) for v in names) if len(names) != 1 else mangle(names[0])
-            return self.block(stmts, env, _JoinCtx(self), fin)
+        if self.events and "evlog" not in names and any(
+                isinstance(nd, ast.Call) and dotted(nd.func) in self.events for nd in ast.walk(s)):
+            names.append("evlog")
+        if cond[0] == "none":
+            # the tested optional local: its refinement in the `Some` branch ends at the join
+            nm = [v for v in env if mangle(v) == cond[1] and v in env_a and v in env_b and env_a[v] != env_b[v]]
+            names += [v for v in nm if v not in names]
         if not names:
+            if cond[0] == "none":
+                raise _NoJoin()
             return self.block(rest, env, ctx, k)
-        a = branch(s.body)
-        b = branch(s.orelse)
+        # first pass (dry): the type of every joined local at the end of every path; a local that is a value
+        # on some paths and an optional value (or None) on others is optional after the join
+        seen = {v: [] for v in names}
+        saved = (list(self.defs), self.nloop, self.ncont, self.nfresh)
+
+        def collect(e):
+            for v in names:
+                if e[v] not in seen[v]:
+                    seen[v].append(e[v])
+            return "tt"
+        try:
+            self.block(s.body, env_a, _JoinCtx(self), collect)
+            self.block(s.orelse, env_b, _JoinCtx(self), collect)
+        finally:
+            self.defs, self.nloop, self.ncont, self.nfresh = saved
+        types = {}
+        for v in names:
+            ts = seen[v]
+            if len(ts) == 1:
+                types[v] = ts[0]
+            elif len(ts) == 2 and (("opt", ts[0]) == ts[1] or ("opt", ts[1]) == ts[0]):
+                types[v] = ts[0] if ts[0] == ("opt", ts[1]) else ts[1]
+            else:
+                raise self.err("local %r has different types on different paths: %s" % (v, ts), s)
+
+        def fin(e):
+            vals = [mangle(v) if e[v] == types[v] else "(Some %s)" % mangle(v) for v in names]
+            return "(%s)" % ", ".join(vals) if len(vals) != 1 else vals[0]
+        a = self.block(s.body, env_a, _JoinCtx(self), fin)
+        b = self.block(s.orelse, env_b, _JoinCtx(self), fin)
         env2 = dict(env)
         for v in names:
             env2[v] = types[v]
         pat = "'(%s)" % ", ".join(mangle(v) for v in names) if len(names) != 1 else mangle(names[0])
-        return "let %s :=\n  if %s then\n%s\n  else\n%s in\n%s" % (
-            pat, c, textwrap.indent(a, "    "), textwrap.indent(b, "    "), self.block(rest, env2, ctx, k))
+        return "let %s :=\n%s in\n%s" % (pat, textwrap.indent(self.render_if(cond, a, b), "  "), self.block(rest, env2, ctx, k))
 
     def always_assigns(self, stmts, v):
         """every path that falls out of the end of stmts has assigned v"""
@@ -1741,6 +1965,9 @@ class FnTranslator:
             if nme in self.fixed and isinstance(self.fixed[nme], dict) and "str" in self.fixed[nme]:
                 out.append((nme, "fixed", "fixed"))
                 continue
+            if nme in self.flags and nme not in ptypes:
+                out.append((nme, "fixed", "fixed"))       # only its truth value is used (a flag of the spec)
+                continue
             if nme not in ptypes:
                 raise self.err("parameter %r has no type in the spec" % nme, self.node)
             t = self.ptype(ptypes[nme])
@@ -1750,6 +1977,8 @@ class FnTranslator:
                 raise self.err("the spec types a parameter %r that the function does not have" % extra, self.node)
         for attr, t in self.attrs:
             out.append((attr_var(attr), t, "attr"))
+        for txt, var in self.flags.items():
+            out.append((var, "bool", "flag"))
         return out
 
     def translate(self, guesses=None):
@@ -1763,7 +1992,8 @@ class FnTranslator:
                     return self.translate({**(guesses or {}), g.name: t})
                 except Unsupported as e:
                     errs.append(e)
-            raise errs[0]
+            # report the attempt that got furthest in the source (the most informative of the failed typings)
+            raise max(errs, key=lambda e: (e.line or 0))
 
     def _translate_modes(self):
         for partial in (False, True):
@@ -1813,6 +2043,8 @@ class FnTranslator:
                 if attr_key(a[1]):
                     self.write_lines.setdefault(attr_var(attr_key(a[1])), []).append(st_.lineno)
                 key = attr_key(a[1])
+                if key is None and isinstance(a[1], ast.Subscript) and attr_key(a[1].value):
+                    key = attr_key(a[1].value)          # d[k].append(x): an entry of the dictionary d
                 if key is None:
                     raise self.err("in-place modification of a computed target", st_)
                 self.appended.add(attr_var(key))
@@ -1853,6 +2085,11 @@ class FnTranslator:
             else:
                 raise self.err("writes lists %s, whose base is neither an object, a record-typed parameter nor a "
                                "parameter" % a, self.node)
+        if self.events:
+            if "evlog" in env:
+                raise self.err("name clash on 'evlog'", self.node)
+            env["evlog"] = ("list", "nat")
+            prelude.append("let evlog := (@nil nat) in")
         ctx = Ctx(self)
 
         def fall_off(e):
@@ -1910,6 +2147,8 @@ class FnTranslator:
             if env[v] != t:
                 raise self.err("attribute %s ends with type %s, the spec says %s" % (a, env[v], t), node)
             parts.append(mangle(v))
+        if self.events:
+            parts.append("evlog")
         code = parts[0]
         for v in parts[1:]:
             code = "(%s, %s)" % (code, v)
@@ -1968,6 +2207,37 @@ Fixpoint py_insert {A : Type} (leb : A -> A -> bool) (x : A) (l : list A) : list
   | y :: l' => if leb x y then x :: l else y :: py_insert leb x l'
   end.
 Definition py_sorted {A : Type} (leb : A -> A -> bool) (l : list A) : list A := fold_right (py_insert leb) [] l.""",
+    "py_dict": """(* Python dictionaries as association lists in insertion order (eq k' k is k' == k):
+   k in d;  d[k] = v (replaced in place or added at the end);  d[k] updated (KeyError = None when k is missing) *)
+Fixpoint py_dict_has {K V : Type} (eq : K -> K -> bool) (k : K) (d : list (K * V)) : bool :=
+  match d with [] => false | (k', _) :: d' => if eq k' k then true else py_dict_has eq k d' end.
+Fixpoint py_dict_set {K V : Type} (eq : K -> K -> bool) (k : K) (v : V) (d : list (K * V)) : list (K * V) :=
+  match d with
+  | [] => [(k, v)]
+  | (k', v') :: d' => if eq k' k then (k', v) :: d' else (k', v') :: py_dict_set eq k v d'
+  end.
+Fixpoint py_dict_upd {K V : Type} (eq : K -> K -> bool) (k : K) (f : V -> V) (d : list (K * V)) : option (list (K * V)) :=
+  match d with
+  | [] => None
+  | (k', v') :: d' => if eq k' k then Some ((k', f v') :: d')
+                      else match py_dict_upd eq k f d' with Some r => Some ((k', v') :: r) | None => None end
+  end.""",
+    "py_extreme_by": """(* Python: min(xs, key=k) / max(xs, key=k): the first element whose key is better than that of every
+   earlier one (better = strictly smaller / larger); ValueError (None) on an empty sequence; an exception
+   in the key function (None) is the exception of the call *)
+Fixpoint py_best_by {A K : Type} (better : K -> K -> bool) (key : A -> option K) (best : A) (kb : K) (l : list A) : option A :=
+  match l with
+  | [] => Some best
+  | y :: l' => match key y with
+               | None => None
+               | Some ky => if better ky kb then py_best_by better key y ky l' else py_best_by better key best kb l'
+               end
+  end.
+Definition py_extreme_by {A K : Type} (better : K -> K -> bool) (key : A -> option K) (l : list A) : option A :=
+  match l with
+  | [] => None
+  | x :: l' => match key x with None => None | Some kx => py_best_by better key x kx l' end
+  end.""",
     "py_zindex": """(* Python: the position an integer index k denotes in a sequence of length n (k < 0 counts from the end);
    IndexError (None) when it lies before the first element; a position >= n fails at the access *)
 Definition py_zindex (k : Z) (n : nat) : option nat :=
